@@ -113,7 +113,7 @@ def run(ctx):
             d = dict(c)
             d["out"] = c["out"][:-1]
             neg.append(d)
-    nv = vlib.Verdicts(PID)
+    nv = vlib.Verdicts(PID, control=True)
     nv.known = []
     _, ncounts = replay_cases(wd, neg, ev, nv, "neg")
     if ncounts.get("mismatch", 0) != len(neg):
